@@ -32,6 +32,8 @@ impl EventGen for SvgElement {
         context: &mut TransformerContext,
     ) -> Result<(OutputList, Option<BoundingBox>)> {
         context.inc_depth()?;
+        #[cfg(feature = "verif-hooks")]
+        crate::verif::elem_eval(context.verif_depth());
         let res = match self.name.as_str() {
             "loop" => LoopElement(self.clone()).generate_events(context),
             "config" => ConfigElement(self.clone()).generate_events(context),
@@ -482,6 +484,8 @@ fn process_tags(
     let remain = &mut Vec::new();
 
     while !tags.is_empty() && remain.len() != tags.len() {
+        #[cfg(feature = "verif-hooks")]
+        crate::verif::retry_pass();
         for (idx, t) in &mut tags.iter_mut() {
             let idx = idx.clone();
             let el = if let Some(el) = t.get_element() {
